@@ -18,8 +18,11 @@ def layout_chunked(rng, body):
     return b"Transfer-Encoding: chunked\r\n", lp.gen_chunked_body(rng, body)
 
 
-def gen_body(rng):
+def gen_body(rng, big=False):
     k = rng.random()
+    if big or k > 0.985:
+        n = rng.choice([8191, 8192, 8193, 9300, 16385, 20000, 40000])
+        return bytes(rng.choice(b"ab\n") for _ in range(n))
     if k < 0.1:
         return b""
     n = rng.choice([1, 2, 3, 7, 100, 1023, 1024, 1025, 2047, 2048, 2049, 3000, 5000]) if k < 0.8 else rng.randint(0, 2500)
@@ -98,8 +101,8 @@ def real_run(spec, chunks, prog):
     return out, nx
 
 
-def gen_case(rng):
-    body = gen_body(rng)
+def gen_case(rng, big=False):
+    body = gen_body(rng, big)
     chunked = rng.random() < 0.5
     hdr, enc = (layout_chunked if chunked else layout_cl)(rng, body)
     head = b"POST /upload HTTP/1.1\r\nHost: x\r\n" + hdr + b"\r\n"
@@ -107,6 +110,8 @@ def gen_case(rng):
     seg = rng.choice(["whole", "random", "random", "small", "cut", "lines"])
     chunks = next(iter(lp.segmentations(rng, stream, [seg])))[1]
     prog = lp.gen_prog(rng, len(body), maxcalls=12)
+    if big:
+        prog = prog[:rng.choice([0, 0, 1, 2])]
     return {"body": body, "chunked": chunked, "stream": stream, "chunks": chunks, "prog": prog, "seg": seg}
 
 
@@ -172,6 +177,16 @@ def run(ctx):
     if bad:
         i, m, im = bad[0]
         ctx.broken.append("correspondence Model/Parser.v vs RequestParser+Body: %d of %d differ; first: %r" % (len(bad), len(model_cases), model_cases[i][2]))
+    if (bad or not ok) and not ctx.violations:
+        # failing-input search: the oracle alone on a larger space (big bodies, short programs)
+        ctx.log("failing-input search ...")
+        for i in range(3000):
+            case = gen_case(ctx.rng, big=(i % 2 == 0))
+            f = check_case(case)
+            if f:
+                ctx.violation(f, {"kind": "c07", "stream": case["stream"].decode("latin-1"), "chunks": [c.decode("latin-1") for c in case["chunks"]],
+                                  "body": case["body"].decode("latin-1"), "prog": case["prog"], "failure": f})
+                break
     hdr = lp.HEADER.replace("Model.Parser.", "Model.Parser Spec.IdealBody.")
     bad2 = ctx.correspond("file", hdr, file_cases, shard=100)
     if bad2:
